@@ -172,6 +172,9 @@ pub fn case_from_bytes(p: &Profile, data: &[u8]) -> Option<Case> {
     if matches!(p.shape, Shape::Gated | Shape::Panic | Shape::PoolChange) {
         return None;
     }
+    if false {
+        return None;
+    }
     let mut s = Src::new(data);
     let s = &mut s;
     let cfg = Cfg {
